@@ -7,11 +7,12 @@
      - every old token wholly before the range is found at the mapped position (which is the same position),
      - every old token wholly after the range is found at the mapped position.
    Token number p lies between positions p and p+1; "mapped position" is [StepMap.map] with assoc = 1, whose
-   meaning is C08's theorems.  Replace-around, mark, attribute and node-mark steps, and the steps of every
-   high-level operation, are judged by the same statement evaluated per case in Coq (Corr.C03). *)
+   meaning is C08's theorems.  Replace-around steps: second theorem.  Mark, attribute and node-mark steps have an
+   EMPTY map: third and fourth theorem (every token stays at its own position).  The steps of every high-level
+   operation are instances; they are also judged by the same statement evaluated per case in Coq (Corr.C03). *)
 From Coq Require Import ZArith List Arith.
 From PM Require Import Model.Data Model.Mark Model.Tree Model.StepMap Model.Step Spec.Tokens
-  Proofs.TokenBasics Proofs.ReplaceTokens Proofs.SliceShape Proofs.StepFaithful Proofs.TokenLaws Proofs.AroundLaws.
+  Proofs.TokenBasics Proofs.ReplaceTokens Proofs.SliceShape Proofs.StepFaithful Proofs.TokenLaws Proofs.AroundLaws Proofs.NodeSteps Proofs.MarkSteps Proofs.MaplessSteps.
 Import ListNotations.
 Local Open Scope nat_scope.
 
@@ -48,3 +49,28 @@ Theorem C03_replace_around_map_faithful : forall s (from to gf gt : nat) sl (ins
   (forall p, to <= p -> nth_error T' (Z.to_nat (map m (Z.of_nat p) 1)) = nth_error T p).
 Proof. exact around_step_map_faithful. Qed.
 Print Assumptions C03_replace_around_map_faithful.
+
+(* steps with an empty map.  An add-mark / remove-mark step: the map sends every position to itself, the size is
+   unchanged, every token outside [from, to) is found unchanged at its own position, and every token inside the
+   range is found there up to its marks ([sh] erases the marks of a token). *)
+Theorem C03_mark_step_map_faithful : forall s st from to doc d',
+  check s doc = true -> from <= to -> mark_step_range st = Some (from, to) -> apply s st doc = ROk d' ->
+  get_map s st = empty_map /\
+  length (DT s d') = length (DT s doc) /\
+  (forall p, p < from \/ to <= p ->
+     nth_error (DT s d') (Z.to_nat (map (get_map s st) (Z.of_nat p) 1)) = nth_error (DT s doc) p) /\
+  (forall p, option_map sh (nth_error (DT s d') (Z.to_nat (map (get_map s st) (Z.of_nat p) 1)))
+             = option_map sh (nth_error (DT s doc) p)).
+Proof. exact mark_step_map_faithful. Qed.
+Print Assumptions C03_mark_step_map_faithful.
+
+(* an attribute / node-mark step at pos: empty map, same size, every token other than token number pos (the one
+   that opens, or is, the addressed node) is found unchanged at its own position *)
+Theorem C03_node_step_map_faithful : forall s st pos doc d',
+  check s doc = true -> is_node_step st = Some pos -> apply s st doc = ROk d' ->
+  get_map s st = empty_map /\
+  length (DT s d') = length (DT s doc) /\
+  (forall p, p <> pos ->
+     nth_error (DT s d') (Z.to_nat (map (get_map s st) (Z.of_nat p) 1)) = nth_error (DT s doc) p).
+Proof. exact node_step_map_faithful. Qed.
+Print Assumptions C03_node_step_map_faithful.
